@@ -5,7 +5,7 @@ constructions share no mutable object, and that pack() is the encoding of those 
 from lib import common, valuesprofile as vp
 from bind import replay_packet as rp
 
-OWNED = {"C19_Construct", "conf_construct", "C13_shared_default", "C02_Layout", "ctor_error"}
+OWNED = {"C19_Construct", "C19_Visible", "conf_construct", "C13_shared_default", "C02_Layout", "ctor_error"}
 
 
 def run(tier, seed):
